@@ -2,6 +2,13 @@
 //! to `repe::Server` and `repe::AsyncServer` (as a request) and to `repe::Client`
 //! and `repe::AsyncClient` (as the response to a pending call).
 //!
+//! Third group of endpoints: the same hostile bytes (plus WebSocket-only ones: a valid
+//! frame with trailing bytes, a frame one byte short, a text message) sent as ONE binary
+//! WebSocket message to a real `WebSocketServer` connection and to
+//! `proxy_connection_with_limits`, and as the response to a pending `WebSocketClient`
+//! call, over in-memory streams on a paused clock (a WebSocket message is a complete
+//! unit, so every hostile payload must be refused by itself).
+//!
 //! Runs inside a worker process (`mc C02 --worker net <from> <to>`): the servers
 //! live in this process, so an abort kills only the worker and the parent blames
 //! the announced scenario.
@@ -21,7 +28,8 @@ use std::sync::atomic::{AtomicU64, Ordering};
 use std::time::Duration;
 
 const WAIT: Duration = Duration::from_secs(10);
-pub const ENDPOINTS: [&str; 4] = ["Server", "AsyncServer", "Client", "AsyncClient"];
+pub const ENDPOINTS: [&str; 7] = ["Server", "AsyncServer", "Client", "AsyncClient", "WebSocketServer", "WebSocketProxy", "WebSocketClient"];
+pub const TCP_ENDPOINTS: usize = 4;
 
 pub struct Hostile {
     pub name: String,
@@ -30,6 +38,21 @@ pub struct Hostile {
     /// a frame); false: the bytes are a truncated but so far consistent frame, the harness
     /// closes its sending side after them
     pub rejectable: bool,
+    /// only meaningful as one WebSocket binary message (on a byte stream the same bytes are
+    /// a valid frame followed by the beginning of another)
+    pub ws_only: bool,
+    /// sent as a text message instead of a binary one (WebSocket endpoints only)
+    pub text: bool,
+}
+
+pub fn applicable(ep: usize, h: &Hostile) -> bool {
+    ep >= TCP_ENDPOINTS || !h.ws_only
+}
+
+pub fn applicable_counts() -> (usize, usize) {
+    let hs = hostiles();
+    let tcp = hs.iter().filter(|h| !h.ws_only).count();
+    (tcp, hs.len())
 }
 
 pub fn hostiles() -> Vec<Hostile> {
@@ -41,7 +64,7 @@ pub fn hostiles() -> Vec<Hostile> {
         let mut bytes = h.encode().to_vec();
         bytes.extend((0..payload).map(|i| b'a' + (i % 26) as u8));
         let consistent_small = h.consistent_total().is_some_and(|t| t <= (1 << 24));
-        v.push(Hostile { name: name.to_string(), bytes, rejectable: !consistent_small });
+        v.push(Hostile { name: name.to_string(), bytes, rejectable: !consistent_small, ws_only: false, text: false });
     };
     // magic
     add("spec=0", 48, 0, 0, 0, 0);
@@ -77,9 +100,27 @@ pub fn hostiles() -> Vec<Hostile> {
     add("truncated q=16MiB-48 after 10 payload bytes", 16 << 20, SPEC, (16 << 20) - 48, 0, 10);
     // truncated headers
     let whole = Hdr { length: 48, ..base }.encode();
-    v.push(Hostile { name: "47 header bytes".into(), bytes: whole[..47].to_vec(), rejectable: false });
-    v.push(Hostile { name: "9 header bytes".into(), bytes: whole[..9].to_vec(), rejectable: false });
-    v.push(Hostile { name: "0 bytes".into(), bytes: Vec::new(), rejectable: false });
+    v.push(Hostile { name: "47 header bytes".into(), bytes: whole[..47].to_vec(), rejectable: false, ws_only: false, text: false });
+    v.push(Hostile { name: "9 header bytes".into(), bytes: whole[..9].to_vec(), rejectable: false, ws_only: false, text: false });
+    v.push(Hostile { name: "0 bytes".into(), bytes: Vec::new(), rejectable: false, ws_only: false, text: false });
+    // one WebSocket message = exactly one frame
+    let ok = valid_request(1);
+    let mut plus1 = ok.clone();
+    plus1.push(0);
+    let mut plus48 = ok.clone();
+    plus48.extend_from_slice(&whole);
+    let mut two = ok.clone();
+    two.extend_from_slice(&ok);
+    for (name, bytes, text) in [
+        ("ws: valid frame + 1 trailing byte", plus1, false),
+        ("ws: valid frame + a second empty frame", plus48, false),
+        ("ws: two valid frames in one message", two, false),
+        ("ws: valid frame minus its last byte", ok[..ok.len() - 1].to_vec(), false),
+        ("ws: valid frame minus its whole body", ok[..HEADER + 5].to_vec(), false),
+        ("ws: a text message", b"{\"a\":1}".to_vec(), true),
+    ] {
+        v.push(Hostile { name: name.into(), bytes, rejectable: true, ws_only: true, text });
+    }
     v
 }
 
@@ -205,6 +246,10 @@ pub struct NetStats {
     pub server_error_reply: u64,
     pub liveness_ok: u64,
     pub client_call_err: u64,
+    pub ws_server_ended: u64,
+    pub ws_server_liveness_ok: u64,
+    pub ws_proxy_ended_nothing_forwarded: u64,
+    pub ws_client_call_err: u64,
 }
 
 struct Env {
@@ -384,9 +429,12 @@ pub fn worker(from: usize, to: usize, emit: &dyn Fn(&str)) {
     let hs = hostiles();
     let mut env = setup();
     let mut st = NetStats::default();
-    let mut confirmed_expiry = [false; 4];
+    let mut confirmed_expiry = [false; ENDPOINTS.len()];
     for k in from..to.min(ENDPOINTS.len() * hs.len()) {
         let (ep, h) = (k / hs.len(), &hs[k % hs.len()]);
+        if !applicable(ep, h) {
+            continue;
+        }
         emit(&format!("@{k}"));
         let before = PANICS.load(Ordering::SeqCst);
         let mut attempt = 0;
@@ -397,7 +445,8 @@ pub fn worker(from: usize, to: usize, emit: &dyn Fn(&str)) {
             let r = match ep {
                 0 | 1 => server_scenario(&mut env, ep, h, wait, &mut st),
                 2 => client_scenario(h, wait, &mut st),
-                _ => async_client_scenario(&env, h, wait, &mut st),
+                3 => async_client_scenario(&env, h, wait, &mut st),
+                _ => ws::scenario(ep, h, &mut st),
             };
             let timed = matches!(&r, Ok(Some(f)) if f.key.ends_with("connection-left-open") || f.key.ends_with("pending-call-hangs"));
             if timed && PANICS.load(Ordering::SeqCst) == before && !confirmed_expiry[ep] {
@@ -444,6 +493,246 @@ pub fn worker(from: usize, to: usize, emit: &dyn Fn(&str)) {
     emit(&format!(
         "D{}",
         json!({"scenarios": st.scenarios, "server_closed": st.server_closed, "server_error_reply": st.server_error_reply,
-               "liveness_ok": st.liveness_ok, "client_call_err": st.client_call_err})
+               "liveness_ok": st.liveness_ok, "client_call_err": st.client_call_err,
+               "ws_server_ended": st.ws_server_ended, "ws_server_liveness_ok": st.ws_server_liveness_ok,
+               "ws_proxy_ended_nothing_forwarded": st.ws_proxy_ended_nothing_forwarded, "ws_client_call_err": st.ws_client_call_err})
     ));
+}
+
+// ---------------------------------------------------------------- WebSocket endpoints
+
+mod ws {
+    use super::{Finding, Hostile, NetStats, valid_request};
+    use crate::frames;
+    use crate::memstream::{self, End};
+    use futures_util::{SinkExt, StreamExt};
+    use serde_json::{Value, json};
+    use std::sync::atomic::{AtomicU64, Ordering};
+    use std::time::Duration;
+    use tokio_tungstenite::WebSocketStream;
+    use tokio_tungstenite::tungstenite::Message as WsMessage;
+    use tokio_tungstenite::tungstenite::protocol::Role;
+
+    const HOUR: Duration = Duration::from_secs(3600);
+    static SLOT: AtomicU64 = AtomicU64::new(0);
+    fn slot() -> u16 {
+        (62000 + SLOT.fetch_add(1, Ordering::SeqCst) % 3000) as u16
+    }
+
+    fn msg(h: &Hostile, id: Option<u64>) -> WsMessage {
+        if h.text {
+            return WsMessage::Text(String::from_utf8_lossy(&h.bytes).into_owned());
+        }
+        let mut b = h.bytes.clone();
+        if let (Some(id), true) = (id, b.len() >= 24) {
+            b[16..24].copy_from_slice(&id.to_le_bytes());
+        }
+        WsMessage::Binary(b)
+    }
+
+    enum Seen {
+        /// close frame, end of stream or transport error
+        Ended,
+        ErrorFrame,
+        OkFrame(u64),
+        Other(String),
+        Nothing,
+    }
+
+    async fn next(peer: &mut WebSocketStream<End>) -> Seen {
+        loop {
+            match tokio::time::timeout(HOUR, peer.next()).await {
+                Err(_) => return Seen::Nothing,
+                Ok(None) | Ok(Some(Err(_))) | Ok(Some(Ok(WsMessage::Close(_)))) => return Seen::Ended,
+                Ok(Some(Ok(WsMessage::Binary(b)))) => {
+                    return match frames::parse_one(&b) {
+                        Ok(Some((f, n))) if n == b.len() && f.h.ec != 0 => Seen::ErrorFrame,
+                        Ok(Some((f, n))) if n == b.len() => Seen::OkFrame(f.h.id),
+                        _ => Seen::Other(format!("binary message of {} bytes that is not one frame", b.len())),
+                    };
+                }
+                Ok(Some(Ok(WsMessage::Text(t)))) => return Seen::Other(format!("text message {t:?}")),
+                Ok(Some(Ok(_))) => continue,
+            }
+        }
+    }
+
+    async fn echo(peer: &mut WebSocketStream<End>, id: u64) -> Result<(), String> {
+        let mut req = valid_request(id);
+        req[16..24].copy_from_slice(&id.to_le_bytes());
+        peer.send(WsMessage::Binary(req)).await.map_err(|e| format!("sending a valid request: {e}"))?;
+        match next(peer).await {
+            Seen::OkFrame(got) if got == id => Ok(()),
+            Seen::OkFrame(got) => Err(format!("response id {got} for request {id}")),
+            Seen::ErrorFrame => Err("error response to a valid echo".into()),
+            Seen::Ended => Err("connection ended instead of answering a valid echo".into()),
+            Seen::Other(o) => Err(o),
+            Seen::Nothing => Err("no response to a valid echo".into()),
+        }
+    }
+
+    fn runtime() -> tokio::runtime::Runtime {
+        tokio::runtime::Builder::new_current_thread().enable_time().start_paused(true).build().expect("runtime")
+    }
+
+    pub fn scenario(ep: usize, h: &Hostile, st: &mut NetStats) -> Result<Option<Finding>, String> {
+        let rt = runtime();
+        match ep {
+            4 => rt.block_on(server(h, st)),
+            5 => rt.block_on(proxy(h, st)),
+            _ => rt.block_on(client(h, st)),
+        }
+    }
+
+    async fn server(h: &Hostile, st: &mut NetStats) -> Result<Option<Finding>, String> {
+        let router = repe::server::Router::new().with_json("/echo", |v: Value| Ok(v));
+        let shared = repe::WebSocketServer::new(router).into_shared();
+        let mut c = crate::wsh::connect(&shared, crate::wsh::Serve::Plain, None).await;
+        echo(&mut c.client, 7).await.map_err(|e| format!("WebSocketServer before the hostile message: {e}"))?;
+        let _ = c.client.send(msg(h, None)).await;
+        let mut finding = None;
+        match next(&mut c.client).await {
+            Seen::Ended | Seen::ErrorFrame => st.ws_server_ended += 1,
+            Seen::OkFrame(id) => {
+                finding = Some(Finding {
+                    key: "C02:net:WebSocketServer:answers-hostile-frame".into(),
+                    what: format!("WebSocketServer answered the hostile message [{}] with a non-error frame (id {id})", h.name),
+                })
+            }
+            Seen::Other(o) => {
+                finding = Some(Finding {
+                    key: "C02:net:WebSocketServer:answers-hostile-frame".into(),
+                    what: format!("WebSocketServer answered the hostile message [{}] with a {o}", h.name),
+                })
+            }
+            Seen::Nothing => {
+                finding = Some(Finding {
+                    key: "C02:net:WebSocketServer:connection-left-open".into(),
+                    what: format!("WebSocketServer neither ended the connection nor answered after [{}] (one hour of virtual time)", h.name),
+                })
+            }
+        }
+        // the connection task returns (an error or Ok), it does not panic
+        match tokio::time::timeout(HOUR, &mut c.server).await {
+            Ok(Err(e)) if e.is_panic() => {
+                finding.get_or_insert(Finding {
+                    key: "C02:net:WebSocketServer:panic:task".into(),
+                    what: format!("the connection task panicked on [{}]: {e}", h.name),
+                });
+            }
+            _ => {}
+        }
+        // the server still serves a fresh connection
+        let mut c2 = crate::wsh::connect(&shared, crate::wsh::Serve::Plain, None).await;
+        match echo(&mut c2.client, 8).await {
+            Ok(()) => st.ws_server_liveness_ok += 1,
+            Err(e) => {
+                finding.get_or_insert(Finding {
+                    key: "C02:net:WebSocketServer:not-serving-after-hostile".into(),
+                    what: format!("WebSocketServer no longer serves a fresh connection after [{}]: {e}", h.name),
+                });
+            }
+        }
+        Ok(finding)
+    }
+
+    async fn proxy(h: &Hostile, st: &mut NetStats) -> Result<Option<Finding>, String> {
+        let (down_srv, down_cli, _dctl) = memstream::pair();
+        let (up_cli, up_srv, uctl) = memstream::pair();
+        let _keep = up_srv;
+        let s = slot();
+        repe::verif_io::register_stream(s, up_cli);
+        let upstream = repe::AsyncClient::connect(("127.254.77.1", s)).await.map_err(|e| format!("AsyncClient::connect over the seam: {e}"))?;
+        let ws_srv = WebSocketStream::from_raw_socket(down_srv, Role::Server, None).await;
+        let mut peer = WebSocketStream::from_raw_socket(down_cli, Role::Client, None).await;
+        let mut task = tokio::spawn(repe::websocket_server::proxy_connection_with_limits(ws_srv, upstream, repe::WebSocketLimits::default()));
+        // positive control: a valid request is forwarded and its response comes back
+        let req = valid_request(9);
+        peer.send(WsMessage::Binary(req.clone())).await.map_err(|e| format!("proxy: sending a valid request: {e}"))?;
+        memstream::settle().await;
+        let fwd = uctl.a_to_b.take();
+        if fwd != req {
+            return Err(format!("proxy forwarded {} bytes for a valid {}-byte request", fwd.len(), req.len()));
+        }
+        uctl.b_to_a.push(&req); // echo the request back as its response (same id, ec 0)
+        match next(&mut peer).await {
+            Seen::OkFrame(9) => {}
+            _ => return Err("proxy did not relay the response to a valid request".into()),
+        }
+        let _ = peer.send(msg(h, None)).await;
+        memstream::settle().await;
+        let mut finding = None;
+        let forwarded = uctl.a_to_b.take();
+        if !forwarded.is_empty() {
+            finding = Some(Finding {
+                key: "C02:net:WebSocketProxy:forwards-hostile-frame".into(),
+                what: format!("the proxy forwarded {} bytes upstream for the hostile message [{}]", forwarded.len(), h.name),
+            });
+        }
+        match tokio::time::timeout(HOUR, &mut task).await {
+            Ok(Err(e)) if e.is_panic() => {
+                finding.get_or_insert(Finding {
+                    key: "C02:net:WebSocketProxy:panic:task".into(),
+                    what: format!("the proxy task panicked on [{}]: {e}", h.name),
+                });
+            }
+            Ok(_) => {
+                if finding.is_none() {
+                    st.ws_proxy_ended_nothing_forwarded += 1;
+                }
+            }
+            Err(_) => {
+                finding.get_or_insert(Finding {
+                    key: "C02:net:WebSocketProxy:connection-left-open".into(),
+                    what: format!("the proxy kept the connection open after the hostile message [{}] (one hour of virtual time)", h.name),
+                });
+            }
+        }
+        Ok(finding)
+    }
+
+    async fn client(h: &Hostile, st: &mut NetStats) -> Result<Option<Finding>, String> {
+        let (client_end, server_end, _ctl) = memstream::pair();
+        let s = slot();
+        repe::verif_io::register_stream(s, client_end);
+        let url = format!("ws://127.254.77.1:{s}/");
+        let (c, ws) = tokio::join!(repe::WebSocketClient::connect(&url), tokio_tungstenite::accept_async(server_end));
+        let c = c.map_err(|e| format!("WebSocketClient::connect over the seam: {e}"))?;
+        let mut ws = ws.map_err(|e| format!("accept: {e}"))?;
+        let call = tokio::spawn(async move { c.call_json_with_timeout("/x", &json!({"a": 1}), Duration::from_secs(120)).await });
+        let id = loop {
+            match tokio::time::timeout(HOUR, ws.next()).await {
+                Ok(Some(Ok(WsMessage::Binary(b)))) => match frames::parse_one(&b) {
+                    Ok(Some((f, n))) if n == b.len() => break f.h.id,
+                    _ => return Err("WebSocketClient sent a malformed request".into()),
+                },
+                Ok(Some(Ok(_))) => continue,
+                _ => return Err("WebSocketClient sent no request".into()),
+            }
+        };
+        let _ = ws.send(msg(h, Some(id))).await;
+        let out = tokio::time::timeout(HOUR, call).await;
+        Ok(match out {
+            Ok(Ok(Err(repe::RepeError::Io(e)))) if e.kind() == std::io::ErrorKind::TimedOut => Some(Finding {
+                key: "C02:net:WebSocketClient:pending-call-hangs".into(),
+                what: format!("WebSocketClient's pending call only ended by its own 120 s timeout after the hostile response [{}]", h.name),
+            }),
+            Ok(Ok(Err(_))) => {
+                st.ws_client_call_err += 1;
+                None
+            }
+            Ok(Ok(Ok(v))) => Some(Finding {
+                key: "C02:net:WebSocketClient:accepts-hostile-response".into(),
+                what: format!("WebSocketClient's pending call returned Ok({v}) for the hostile response [{}]", h.name),
+            }),
+            Ok(Err(e)) => Some(Finding {
+                key: "C02:net:WebSocketClient:panic:task".into(),
+                what: format!("the calling task failed on [{}]: {e}", h.name),
+            }),
+            Err(_) => Some(Finding {
+                key: "C02:net:WebSocketClient:pending-call-hangs".into(),
+                what: format!("WebSocketClient's pending call did not return after the hostile response [{}]", h.name),
+            }),
+        })
+    }
 }
